@@ -1,7 +1,7 @@
 (* Extraction of the unused-variable analyser model (engine `unusedvar`) and of the tree-level
-   specification with its guard checkers (model-only engine `unusedvarspec`).
+   specification and the tree-shape checker top_flat_b (model-only engine `unusedvarspec`).
    Directives: ExtrOcamlBasic only. *)
 From Coq Require Import ExtrOcamlBasic.
 From GoldV Require Import Base Tokens Lexer AstKinds Tree UnusedVar UnusedVarProofs.
 Extraction Language OCaml.
-Separate Extraction UnusedVar.analyze UnusedVar.analyze_today UnusedVar.key_today Base.upper UnusedVarProofs.guard_flags UnusedVarProofs.unused_spec UnusedVarProofs.unused_spec_ext.
+Separate Extraction UnusedVar.analyze UnusedVar.analyze_today UnusedVar.analyze_old UnusedVar.key_today Base.upper UnusedVarProofs.top_flat_b UnusedVarProofs.unused_spec UnusedVarProofs.dup_spec.
